@@ -592,6 +592,11 @@ impl<'a> Http2Parser<'a> {
         let stream_frames: Vec<&Http2Frame> =
             frames.iter().filter(|f| f.stream_id == stream_id).collect();
 
+        // The message head is the stream's first header block: the HEADERS frame and the
+        // CONTINUATION frames up to END_HEADERS. Whatever follows on the stream (trailers, the
+        // final response after an interim one) may or may not have arrived yet when the head
+        // is complete, and must not change what is reported
+        const END_HEADERS: u8 = 0x4;
         for frame in stream_frames {
             match frame.frame_type {
                 Http2FrameType::Headers | Http2FrameType::Continuation => {
@@ -609,6 +614,9 @@ impl<'a> Http2Parser<'a> {
                             }
                             _ => headers.push(header),
                         }
+                    }
+                    if frame.flags & END_HEADERS != 0 {
+                        break;
                     }
                 }
                 _ => {}
